@@ -22,6 +22,7 @@ import GoSquare.Properties.C19
 import GoSquare.Properties.C20
 import GoSquare.Proofs.DecLocal
 import GoSquare.Proofs.HeapRefine
+import GoSquare.Properties.C01Total
 import GoSquare.Properties.C19Json
 #print axioms GoSquare.C01.build_then_construct
 #print axioms GoSquare.C01.kept_export_eq
@@ -30,6 +31,8 @@ import GoSquare.Properties.C19Json
 #print axioms GoSquare.buildLoop_spec
 #print axioms GoSquare.appendTx_spec
 #print axioms GoSquare.appendBlobTx_spec
+#print axioms GoSquare.C01.build_and_construct_agree
+#print axioms GoSquare.C01.build_and_construct_agree_unmarshalBlobTx
 #print axioms GoSquare.C02.deconstruct_construct
 #print axioms GoSquare.C02.deconstruct_isSquareOf
 #print axioms GoSquare.C02.empty_roundtrip
